@@ -15,7 +15,8 @@ pub fn scenario(r: &mut Rng, small: bool) -> Scenario {
         let mut ops = Vec::new();
         for _ in 0..nops {
             let ty = r.usize_below(TYPE_NAMES.len());
-            let esize = [1usize, 2, 4, 4, 8, 3, 16, 16, 4, 4][ty];
+            // (the zero-sized type is given a nominal size of 1 so that capacities stay small)
+            let esize = [1usize, 2, 4, 4, 8, 3, 16, 16, 4, 4, 1][ty];
             let bytes = *r.pick(&sizes);
             let cap = match r.below(8) {
                 0 => 0,
